@@ -39,6 +39,8 @@ type interpreter struct {
 	ghost              map[string]value
 	events             []evRec
 	conc               *concState
+	onces              map[*value]bool
+	roCells            map[*value]bool
 	depth              int
 }
 
@@ -147,13 +149,7 @@ func (fr *frame) index(idx value, t types.Type, n int) int {
 	if tt, ok := idx.(*Term); ok {
 		ex := fr.ex()
 		ts := ex.ts
-		_, signed, _ := basicInfo(t)
-		var in *Term
-		if signed {
-			in = ts.And(ts.Sle(ts.BV(tt.w, 0), tt), ts.Slt(tt, ts.BV(tt.w, uint64(n))))
-		} else {
-			in = ts.Ult(tt, ts.BV(tt.w, uint64(n)))
-		}
+		in := inRange(ts, tt, t, n)
 		if !ex.branch(in) {
 			panic(rtErr(fmt.Sprintf("runtime error: index out of range [symbolic] with length %d", n)))
 		}
@@ -169,6 +165,80 @@ func (fr *frame) index(idx value, t types.Type, n int) int {
 		panic(rtErr(fmt.Sprintf("runtime error: index out of range [%d] with length %d", k, n)))
 	}
 	return int(k)
+}
+
+// inRange: 0 <= idx < n for an index term of the static type t (n may exceed
+// what the index type can represent).
+func inRange(ts *TermStore, tt *Term, t types.Type, n int) *Term {
+	_, signed, _ := basicInfo(t)
+	if signed {
+		if tt.w < 63 && n > (1<<uint(tt.w-1))-1 {
+			return ts.Sle(ts.BV(tt.w, 0), tt)
+		}
+		return ts.And(ts.Sle(ts.BV(tt.w, 0), tt), ts.Slt(tt, ts.BV(tt.w, uint64(n))))
+	}
+	if tt.w < 64 && uint64(n) > mask(tt.w) {
+		return ts.Bool(true)
+	}
+	return ts.Ult(tt, ts.BV(tt.w, uint64(n)))
+}
+
+// tableLookup: reading a table of concrete scalars at a symbolic index yields
+// an ite-chain over the distinct element values instead of a fork per index.
+// The result is the address of a read-only temporary cell.
+func (fr *frame) tableLookup(elems []value, idx *Term, it types.Type) (*value, bool) {
+	if len(elems) <= 8 {
+		return nil, false
+	}
+	ex := fr.ex()
+	ts := ex.ts
+	groups := map[value][]int{}
+	var order []value
+	for k, e := range elems {
+		switch e.(type) {
+		case bool, int, int8, int16, int32, int64, uint, uint8, uint16, uint32, uint64, uintptr:
+		default:
+			return nil, false
+		}
+		if _, ok := groups[e]; !ok {
+			order = append(order, e)
+		}
+		groups[e] = append(groups[e], k)
+	}
+	if len(order) > 16 {
+		return nil, false
+	}
+	if !ex.branch(inRange(ts, idx, it, len(elems))) {
+		panic(rtErr(fmt.Sprintf("runtime error: index out of range [symbolic] with length %d", len(elems))))
+	}
+	// the most frequent value is the default of the chain
+	def := order[0]
+	for _, v := range order {
+		if len(groups[v]) > len(groups[def]) {
+			def = v
+		}
+	}
+	res := toTerm(ts, def)
+	for _, v := range order {
+		if v == def {
+			continue
+		}
+		var alts []*Term
+		for _, k := range groups[v] {
+			alts = append(alts, ts.Eq(idx, ts.BV(idx.w, uint64(k))))
+		}
+		res = ts.Ite(ts.Or(alts...), toTerm(ts, v), res)
+	}
+	var cell value = res
+	if res.IsConst() {
+		cell = def
+	}
+	if fr.i.roCells == nil {
+		fr.i.roCells = map[*value]bool{}
+	}
+	p := &cell
+	fr.i.roCells[p] = true
+	return p, true
 }
 
 func visitInstr(fr *frame, instr ssa.Instruction) continuation {
@@ -255,6 +325,9 @@ func visitInstr(fr *frame, instr ssa.Instruction) continuation {
 		ex.unsupported("channel send")
 
 	case *ssa.Store:
+		if fr.i.roCells != nil && fr.i.roCells[fr.get(instr.Addr).(*value)] {
+			panic(engineErr{"store through a symbolic table index"})
+		}
 		if fr.i.conc != nil {
 			fr.i.logAccessDeep(mustDeref(instr.Addr.Type()), fr.get(instr.Addr).(*value), true, fr)
 		}
@@ -355,12 +428,24 @@ func visitInstr(fr *frame, instr ssa.Instruction) continuation {
 		idx := fr.get(instr.Index)
 		switch x := x.(type) {
 		case []value:
+			if it, ok := idx.(*Term); ok {
+				if p, ok := fr.tableLookup(x, it, instr.Index.Type()); ok {
+					fr.env[instr] = p
+					break
+				}
+			}
 			fr.env[instr] = &x[fr.index(idx, instr.Index.Type(), len(x))]
 		case *value: // *array
 			if x == nil {
 				panic(rtErr("runtime error: invalid memory address or nil pointer dereference"))
 			}
 			a := (*x).(array)
+			if it, ok := idx.(*Term); ok {
+				if p, ok := fr.tableLookup(a, it, instr.Index.Type()); ok {
+					fr.env[instr] = p
+					break
+				}
+			}
 			fr.env[instr] = &a[fr.index(idx, instr.Index.Type(), len(a))]
 		default:
 			panic(engineErr{fmt.Sprintf("unexpected x type in IndexAddr: %T", x)})
@@ -539,8 +624,10 @@ func callSSA(i *interpreter, caller *frame, callpos token.Pos, fn *ssa.Function,
 			return nil // package initialisers outside the repository are not run
 		}
 		if ext := intrinsics[name]; ext != nil {
-			i.ex.stats.Intrinsics[name] = true
-			return ext(fr, args)
+			if r := ext(fr, args); r != fallThrough {
+				i.ex.stats.Intrinsics[name] = true
+				return r
+			}
 		}
 		if strings.HasPrefix(fn.Name(), "verif") && fn.Pkg != nil {
 			if ext := verifIntrinsics[fn.Name()]; ext != nil {
